@@ -197,6 +197,30 @@ def gen_late(rng, tier, index):
     scn['variants'] = [v for v in scn['variants'] if v['pause'] == 1]
     return scn
 
+def gen_press(rng, tier, index):
+    """128K machine, tape paused at the second turbo block for a keypress (tap2sna --press): the program writes to
+    0x7FFD while the keypress tracer is active, and again after the load has resumed."""
+    scn = gen_custom(rng, tier, index)
+    scn['lbase'] = rng.choice((0x8000, 0x9000, rng.randrange(0x8000, 0xA000)))
+    scn['tape_fmt'] = 'tap'
+    scn['r0'] = None
+    b1 = scn['blocks'][0]
+    b1['len'] = min(b1['len'], 30)
+    b1['form'] = 'tzx11'
+    b2 = json.loads(json.dumps(b1))
+    b2['seed'] = rng.getrandbits(48)
+    b2['len'] = rng.randrange(1, 30)
+    scn['blocks'] = [b1, b2]
+    # bit 4 stays set: the relocated loader returns through SA/LD-RET in the 48K ROM
+    v1 = 0x10 | rng.choice((rng.randrange(8), 0x20 | rng.randrange(8), 0x20 | rng.randrange(8), rng.randrange(256) & 0xEF))
+    v2 = 0x10 | rng.choice((rng.randrange(8), rng.randrange(8), rng.randrange(256) & 0xEF))
+    scn['press'] = {'v1': v1, 'v2': v2, 'marker': rng.choice((0xA5, 0x5A, 0xC3, rng.randrange(1, 256)))}
+    scn['machine'] = '128'
+    scn['kind'] = 'press128'
+    scn['python'] = rng.random() < 0.5
+    scn['size'] = b1['len'] + b2['len'] + 500
+    return scn
+
 def gen_repatch(rng, tier, index):
     """Two turbo blocks; between them the program copies a second loader (another family of the same shape) over
     the first, so the code around the same IN address changes while the tape session continues."""
@@ -334,7 +358,16 @@ def build(scn, wd):
     ranges = []
     blocks = scn['blocks']
     jr_at = []
+    press = scn.get('press')
+    if press:
+        # key-wait subroutine placed after the loader: LD A,0xBF; IN A,(0xFE); RRA; JR C,$-7; RET   (ENTER = bit 0 of row 0xBF)
+        isr = isr + bytes((0x3E, 0xBF, 0xDB, 0xFE, 0x1F, 0x38, 0xF9, 0xC9))
+        wait_at = base + 0x40 + len(code) + len(isr) - 8
+        dest = (dest + 8) & 0xFFFF
     for bi, b in enumerate(blocks):
+        if bi == 1 and press:
+            # wait for ENTER; write v1 to 0x7FFD (this happens while tap2sna's keypress tracer is active); wait for ENTER again
+            stub += bytes((0xCD,)) + _word(wait_at) + bytes((0x01, 0xFD, 0x7F, 0x3E, press['v1'], 0xED, 0x79, 0xCD)) + _word(wait_at)
         if bi == 1 and late:
             # idle for `delay` iterations of 26 T-states: LD BC,n; DEC BC; LD A,B; OR C; JR NZ,$-3
             stub += bytes((0x01,)) + _word(late['delay']) + bytes((0x0B, 0x78, 0xB1, 0x20, 0xFB))
@@ -348,6 +381,9 @@ def build(scn, wd):
         stub += bytes((0x30, 0x00))      # JR NC,fail  (patched below)
         ranges.append((d, d + b['len']))
         dest += b['len'] + 7
+    if press:
+        # after the last block: a second write to 0x7FFD and a marker byte stored through 0xC000
+        stub += bytes((0x01, 0xFD, 0x7F, 0x3E, press['v2'], 0xED, 0x79, 0x3E, press['marker'], 0x32, 0x00, 0xC0))
     done = base + len(stub)
     stub += bytes((0xC3,)) + _word(done)         # done: JP done   (--start = done)
     fail = base + len(stub)
@@ -371,8 +407,17 @@ def build(scn, wd):
     with open(tape2, 'wb') as f:
         f.write(pzx_bytes(blocks) if is_pzx else tzx_bytes(blocks))
     scn['extra_args'] = [tape1]
+    if press:
+        with open(tape1, 'rb') as f:
+            t1 = f.read()
+        n1, k = 0, 0
+        while k + 2 <= len(t1):
+            k += 2 + (t1[k] | (t1[k + 1] << 8))
+            n1 += 1
+        # tape 2 = [0x20 pause][block 1][block 2]: the tape is paused at its second data block
+        scn['extra_args'] = ['--press', '%d:ENTER*2' % (n1 + 3), tape1]
     # tap2sna: INPUT INPUT OUTFILE  -> the second tape is passed as the 'tape' argument after the first
-    return tape2, done, '48', ranges, set()
+    return tape2, done, scn.get('machine', '48'), ranges, set()
 
 def shrink_candidates(scn):
     def cp():
